@@ -53,7 +53,10 @@ impl<R: Round, const B: Word> FBig<R, B> {
     pub(crate) fn split_at_point_internal(&self) -> (IBig, IBig, usize) {
         debug_assert!(self.repr.exponent < 0);
         if self.repr.smaller_than_one() {
-            return (IBig::ZERO, self.repr.significand.clone(), self.context.precision);
+            // all the digits of the significand are after the radix point, and there are
+            // `-exponent` of them (leading zeros included)
+            let fract_digits = (-self.repr.exponent) as usize;
+            return (IBig::ZERO, self.repr.significand.clone(), fract_digits);
         }
 
         let shift = (-self.repr.exponent) as usize;
@@ -123,6 +126,8 @@ impl<R: Round, const B: Word> FBig<R, B> {
         assert_finite(&self.repr);
         if self.repr.exponent >= 0 {
             return Self::ZERO;
+        } else if self.repr.smaller_than_one() {
+            return self.clone();
         }
 
         let (_, lo, precision) = self.split_at_point_internal();
